@@ -8,6 +8,7 @@ import (
 	"fmt"
 	"os"
 	"go/ast"
+	"go/token"
 	"go/types"
 
 	"golang.org/x/tools/go/ssa"
@@ -318,4 +319,153 @@ func (W *World) contractStale(fn string) bool {
 		}
 	}
 	return false
+}
+
+// countsUp reports whether the loop-head phi p is the counter of a counting loop: the head leaves the loop
+// unless p < bound, and every back edge carries p+1 (or p) computed inside the body. Then p+1 cannot wrap
+// (p < bound <= max) and p never drops below its value on entry.
+func countsUp(p *ssa.Phi, li *loopInfo) bool {
+	b, ok := types.Unalias(p.Type()).Underlying().(*types.Basic)
+	if !ok || b.Info()&types.IsInteger == 0 {
+		return false
+	}
+	h := li.header
+	if len(h.Instrs) == 0 {
+		return false
+	}
+	ifi, ok := h.Instrs[len(h.Instrs)-1].(*ssa.If)
+	if !ok || len(h.Succs) != 2 {
+		return false
+	}
+	cmp, ok := ifi.Cond.(*ssa.BinOp)
+	if !ok {
+		return false
+	}
+	switch {
+	case cmp.Op == token.LSS && cmp.X == ssa.Value(p):
+	case cmp.Op == token.GTR && cmp.Y == ssa.Value(p):
+	default:
+		return false
+	}
+	if !li.body[h.Succs[0]] || li.body[h.Succs[1]] || h.Succs[0] == h {
+		return false
+	}
+	back := 0
+	for i, e := range p.Edges {
+		if !li.body[h.Preds[i]] {
+			continue
+		}
+		back++
+		if e == ssa.Value(p) {
+			continue
+		}
+		add, ok := e.(*ssa.BinOp)
+		if !ok || add.Op != token.ADD || add.X != ssa.Value(p) || add.Block() == h || !li.body[add.Block()] {
+			return false
+		}
+		c, ok := add.Y.(*ssa.Const)
+		if !ok || c.Value == nil || c.Value.Kind() != constant.Int {
+			return false
+		}
+		if n, exact := constant.Int64Val(c.Value); !exact || n != 1 {
+			return false
+		}
+	}
+	return back > 0
+}
+
+// pointeeFrames: for each 'assigns *p' item of a verified function, the heap components of the struct p points
+// to (by component-name prefix "H.<dt>.") and the address p had on entry.
+func (fr *Frame) pointeeFrames(ct *Contract) map[string][]*Term {
+	out := map[string][]*Term{}
+	for _, a := range ct.Assigns {
+		if !strings.HasPrefix(a, "*") {
+			continue
+		}
+		name := strings.TrimPrefix(a, "*")
+		for _, p := range fr.fn.Params {
+			if p.Name() != name {
+				continue
+			}
+			pt, ok := types.Unalias(p.Type()).Underlying().(*types.Pointer)
+			if !ok {
+				continue
+			}
+			dt, _, ok := fr.ex.tm.StructOf(pt.Elem())
+			if !ok {
+				continue
+			}
+			if v, ok := fr.env[p]; ok {
+				out["H."+dt+"."] = append(out["H."+dt+"."], v)
+			}
+		}
+	}
+	return out
+}
+
+// devirtualize: the receiver of an interface call is, on every path, nil or a struct value of one named type
+// boxed into the interface (box.<dt>(v), possibly under ite). Returns that type's method and the struct value.
+func (fr *Frame) devirtualize(recv *Term, c *ssa.CallCommon) (*ssa.Function, *Term) {
+	ex := fr.ex
+	dt := ""
+	var unbox func(t *Term) *Term
+	unbox = func(t *Term) *Term {
+		switch {
+		case t.op == "app" && strings.HasPrefix(t.name, "box.") && len(t.args) == 1:
+			n := strings.TrimPrefix(t.name, "box.")
+			if dt != "" && dt != n {
+				return nil
+			}
+			dt = n
+			return t.args[0]
+		case t.op == "ite":
+			a, b := t.args[1], t.args[2]
+			az := a.op == "int" && a.ival.Sign() == 0
+			bz := b.op == "int" && b.ival.Sign() == 0
+			switch {
+			case az && bz:
+				return nil
+			case az:
+				return unbox(b)
+			case bz:
+				return unbox(a)
+			}
+			ua, ub := unbox(a), unbox(b)
+			if ua == nil || ub == nil {
+				return nil
+			}
+			return ex.f.Ite(t.args[0], ua, ub)
+		}
+		return nil
+	}
+	v := unbox(recv)
+	if v == nil || dt == "" {
+		return nil, nil
+	}
+	T, ok := ex.tm.dtType[dt]
+	if !ok {
+		return nil, nil
+	}
+	sel := ex.W.prog.MethodSets.MethodSet(T).Lookup(c.Method.Pkg(), c.Method.Name())
+	if sel == nil {
+		return nil, nil
+	}
+	fn := ex.W.prog.MethodValue(sel)
+	if fn == nil || fn.Synthetic != "" && len(fn.Blocks) == 0 {
+		return nil, nil
+	}
+	if fn.Synthetic != "" {
+		if obj, ok := sel.Obj().(*types.Func); ok {
+			if d := ex.W.prog.FuncValue(obj); d != nil {
+				fn = d
+			}
+		}
+	}
+	if len(fn.Params) == 0 {
+		return nil, nil
+	}
+	if _, isPtr := types.Unalias(fn.Params[0].Type()).Underlying().(*types.Pointer); isPtr {
+		return nil, nil
+	}
+	return fn, v
 }
